@@ -317,6 +317,14 @@ fn base_frames(ctx: &Ctx) -> Vec<Base> {
     // the two frames with the largest byte sums there are (66 045 and 65 790: beyond what 16 bits hold)
     v.push(Base { addr: 0xFFFF, ty: 0xFF, data: vec![0xFF; 255] });
     v.push(Base { addr: 0xFFFF, ty: 0xFF, data: vec![0xFF; 254] });
+    // ... and three almost as heavy (byte sums 65 791 .. 65 793) whose TRUE checksum is 01, 00, FF: if a decoder's checksum
+    // arithmetic gives out on sums this large, the value it gives is most likely one of these — then the base line still
+    // decodes, and so does every line that differs from it in one data digit
+    for last in [0x01u8, 0x02, 0x03] {
+        let mut data = vec![0xFFu8; 255];
+        data[254] = last;
+        v.push(Base { addr: 0xFFFF, ty: 0xFF, data });
+    }
     for (a, t, d) in picks {
         v.push(Base { addr: a, ty: t, data: d.to_vec() });
     }
